@@ -24,7 +24,9 @@ ASSUMPTIONS = [
     "the stdin reader is modelled on characters; its UTF-8 decoding (read_char_from_bytes) is exercised by the correspondence (2-, 3-, 4-byte characters) but not modelled",
     "the interactive terminal reader (reader/terminal.rs) is the subject of C20, not of this property",
     "the model is the debug profile (debug_assert!, overflow checks); the theorems show no such site is reachable, so the release profile behaves alike (thorough tier runs it too)",
-    "the documented grammar is help.txt plus the alias tables of name.rs and the integer syntax documented on Integer::try_parse; `b+2`/`o-8` (radix letter, sign, digit not of the radix) is a malformed integer, not label+offset, as the parser's own tests state",
+    "the documented grammar is help.txt plus the alias tables of name.rs and the integer syntax documented on Integer::try_parse; `b+2`/`o-8` (radix letter, sign, digit not of the radix) is a malformed integer, not label+offset, as the parser's own tests state (CmdSpec.PrefixedLike)",
+    "a label-shaped token whose leading radix letter + digits already exceed 2^31-1 (`x80000000g`) is rejected as too large an integer (CmdSpec.TooLargeLike): carved out of the label syntax, not repaired",
+    "error::Value::MalformedLabel is unreachable (a label offset that is not an integer is always reported as MalformedInteger): error *kinds* are compared between model and implementation but the grammar only says 'rejected'",
 ]
 
 ALPHABET = "+-#xob0179afg^r_"
